@@ -208,6 +208,30 @@ struct ViewDriver : DriverBase<ViewDriver> {
                 }
             }
             ctx.log.kv("b", b);
+            if (!bad && st.k[2] % 4 == 1 && len >= 2) {
+                // the compile-time forms on a span of dynamic extent: subspan<Offset>() with the defaulted count,
+                // subspan<Offset, Count>(), first<Count>(), last<Count>()
+                int const form = static_cast<int>(st.k[0] % 6);
+                ctx.log.kv("tform", form);
+                SP r;
+                Win w{};
+                bool ok = call(a, false, false, [&] {
+                    switch (form) {
+                    case 0: r = sp[b]->template subspan<0>(); w = Win{0, len}; break;
+                    case 1: r = sp[b]->template subspan<1>(); w = Win{1, len - 1}; break;
+                    case 2: r = sp[b]->template subspan<2>(); w = Win{2, len - 2}; break;
+                    case 3: r = sp[b]->template subspan<1, 1>(); w = Win{1, 1}; break;
+                    case 4: r = sp[b]->template first<2>(); w = Win{0, 2}; break;
+                    default: r = sp[b]->template last<2>(); w = Win{len - 2, 2}; break;
+                    }
+                });
+                if (ok) {
+                    *sp[a] = r;
+                    msp[a] = Win{msp[b].off + w.off, w.len};
+                    ++ctx.stateChanging;
+                }
+                return;
+            }
             ctx.log.kv("off", static_cast<long long>(off));
             ctx.log.kv("cnt", static_cast<long long>(cnt));
             SP r;
